@@ -6,6 +6,8 @@ package ua
 
 import (
 	"fmt"
+	"io"
+	"math"
 	"reflect"
 	"time"
 
@@ -145,6 +147,17 @@ func (m *Variant) Decode(b []byte) (int, error) {
 		return buf.Pos(), StatusBadEncodingLimitsExceeded
 	}
 
+	// -1 is the null array. All other negative values are invalid.
+	if n < -1 {
+		return buf.Pos(), StatusBadDecodingError
+	}
+
+	// every element takes at least one byte. Do not
+	// allocate memory for more elements than there can be.
+	if n > buf.Len() {
+		return buf.Pos(), io.ErrUnexpectedEOF
+	}
+
 	// get the type for the slice
 	sliceType := reflect.SliceOf(typ)
 	if m.Type() == TypeIDByte {
@@ -172,6 +185,10 @@ func (m *Variant) Decode(b []byte) (int, error) {
 		if m.arrayDimensionsLength < 0 {
 			return buf.Pos(), StatusBadEncodingLimitsExceeded
 		}
+		// every dimension takes four bytes.
+		if int(m.arrayDimensionsLength) > buf.Len()/4 {
+			return buf.Pos(), io.ErrUnexpectedEOF
+		}
 		m.arrayDimensions = make([]int32, m.arrayDimensionsLength)
 		for i := 0; i < int(m.arrayDimensionsLength); i++ {
 			m.arrayDimensions[i] = buf.ReadInt32()
@@ -191,11 +208,16 @@ func (m *Variant) Decode(b []byte) (int, error) {
 	// validate that the total number of elements
 	// matches the product of the array dimensions
 	if m.arrayDimensionsLength > 0 {
-		count := int32(1)
+		// use 64 bit to not overflow since
+		// both values are at most MaxInt32
+		count := int64(1)
 		for i := range m.arrayDimensions {
-			count *= m.arrayDimensions[i]
+			count *= int64(m.arrayDimensions[i])
+			if count > math.MaxInt32 {
+				return buf.Pos(), errUnbalancedSlice
+			}
 		}
-		if count != m.arrayLength {
+		if count != int64(m.arrayLength) {
 			return buf.Pos(), errUnbalancedSlice
 		}
 	}
